@@ -57,3 +57,12 @@ Proof. exact three_sum_R. Qed.
 Print Assumptions C13_three_sum_R.
 (* not proved: two_sqr's own sequence ((hi*hi - p) + 2.0*hi*lo) + lo*lo and the generic twoSum on cfloat -- judged per case against
    the exact specification (EFTModel.v) by the correspondence streams *)
+
+(* the splitter constant the theorems are stated for is the one in the source (re-extracted on every run into Tables.v) *)
+From UV Require Import Tables.
+Theorem C13_splitter_matches_source : src_split_bits = 27 /\ src_splitter = 2 ^ src_split_bits + 1 /\ IZR src_splitter = splitter.
+Proof.
+  split; [reflexivity|]. split; [reflexivity|].
+  unfold splitter, src_splitter. rewrite <- (IZR_Zpower radix2 27) by lia. rewrite <- plus_IZR. reflexivity.
+Qed.
+Print Assumptions C13_splitter_matches_source.
